@@ -262,6 +262,25 @@ def wide_weight_work(inp):
                     out.append(("%s:WideWeights(py):SpuriousTie" % rule, "ValueError although the exact tallies have no tie at seat %d" % m))
             except Exception as ex:  # noqa
                 out.append(("%s:WideWeights(py):Error" % rule, type(ex).__name__))
+    # a tie on first-place votes that a borda tiebreak resolves by less than one double-ulp: the resolution is still deterministic
+    top = grouped(positional_py(bag, cands, [1]))[0]
+    bor = positional_py(bag, cands, list(range(n, 0, -1)))
+    if len(top) >= 2:
+        best = [c for c in top if bor[c] == max(bor[x] for x in top)]
+        if len(best) == 1:
+            import random as _r
+            for sd in range(4):
+                _r.seed(sd)
+                try:
+                    with quiet():
+                        e = VE.Plurality(prof, m=1, tiebreak="borda")
+                    if [sorted(s) for s in e.get_elected()] != [best]:
+                        out.append(("Plurality:WideWeights(py):Tiebreak", "first-place tie %s, exact Borda scores single out %s, elected %s"
+                                    % (top, best, [sorted(s) for s in e.get_elected()])))
+                        break
+                except Exception as ex:  # noqa
+                    out.append(("Plurality:WideWeights(py):TiebreakError", type(ex).__name__))
+                    break
     return [(sig, what, inp) for sig, what in out]
 
 
@@ -277,6 +296,11 @@ def wide_weight_inputs(rng, n):
                 F(2 * 10**17 + rng.choice([0, 0, 1, 2]), 10**17) if style == "close" else F(rng.randint(1, 50), rng.choice([10007, 999983, 1000003]))
             tail = rng.sample([x for x in cands if x != c], rng.randint(0, nc - 1))
             ballots.append({"r": [[x] for x in [c] + tail], "w": rat(w)})
+        if rng.random() < 0.3:
+            # exact first-place tie between two leaders whose Borda scores differ by one point in 5 * 2^53
+            a, b, c = rng.sample(cands, 3)
+            X = F(2**53) * rng.choice([1, 3])
+            ballots = [{"r": [[a], [b]], "w": rat(X)}, {"r": [[b], [a]], "w": rat(X)}, {"r": [[c], [rng.choice([a, b])]], "w": [1, 1]}]
         order = list(cands)
         rng.shuffle(order)
         out.append({"cands": cands, "ballots": ballots, "cand_order": order})
